@@ -119,7 +119,7 @@ def _index_build(M, thr_ty):
             return [
                 ('size-cache', z3.And(ln(sc) == upto, FA([r], z3.Implies(z3.And(r >= 0, r < upto),
                                                                       at(sc, r) == L_len(LI, X(r))), [at(sc, r)]))),
-                ('min-max', z3.And(mx >= 0, FA([r], z3.Implies(z3.And(r >= 0, r < upto), z3.And(
+                ('min-max', z3.And(mx >= 0, mx <= S.MAXTOK, mn >= 0, FA([r], z3.Implies(z3.And(r >= 0, r < upto), z3.And(
                     mn <= L_len(LI, X(r)), L_len(LI, X(r)) <= mx)), [X(r)]))),
                 ('cached-tokens', z3.If(c['cache_tokens'], z3.And(ln(ct) == upto, FA([r], z3.Implies(
                     z3.And(r >= 0, r < upto), at(ct, r) == X(r)), [at(ct, r)])), ln(ct) == 0)),
